@@ -164,6 +164,12 @@ void prop_c01(hz::Ctx &ctx) {
       for (int combo = 0; combo < 12; combo++) { LineCase c{it, combo}; run_case(ctx, c, nontriv, [](const LineCase &c, const Verdict &v, hz::Ctx &ctx) {
         // nopN must be exactly N bytes long
         if (c.it.mn.rfind("nop", 0) == 0) { int want = c.it.mn.size() > 3 ? atoi(c.it.mn.c_str() + 3) : 1; if ((int)v.res.bytes.size() != want) ctx.fail(make_failure(c, "noplen", "nop length " + std::to_string(v.res.bytes.size()))); }
+        // the operand's own size keyword in front of a register operand (nasm's spelling "mov byte spl, al"): the library may refuse the line,
+        // but when it accepts it, it is the very same instruction
+        { std::vector<size_t> g; for (size_t k = 0; k < c.it.ops.size(); k++) if (c.it.ops[k].k == K_GPR) g.push_back(k);
+          if (!g.empty() && v.res.rc == 0) { size_t k = g[(hz::fnv(serialize(c)) >> 13) % g.size()]; std::string t = text_kwreg(c.it, k); auto r = al::assemble(t, c.combo);
+            ctx.cls(r.rc == 0 ? "part:keyword-before-register-accepted" : "part:keyword-before-register-refused");
+            if (r.rc == 0 && r.bytes != v.res.bytes) { hz::Failure f = make_failure(c, "keyword-before-register", "\"" + t + "\" is accepted and gives " + x86::hex(r.bytes.data(), r.bytes.size()) + " ; without the keyword " + x86::hex(v.res.bytes.data(), v.res.bytes.size())); f.caseid = "KR|" + std::to_string(k) + "|" + serialize(c); f.tags.push_back("group:kwreg"); ctx.fail(f); } } }
       }); }
     });
   }
@@ -463,6 +469,12 @@ int replay_line(const std::string &prop, const std::string &caseid) {
   if (caseid.compare(0, 2, "K|") == 0) {
     LineCase c; if (!parse_case(caseid.substr(2), c)) return 2; hz::Ctx ctx; ctx.out = fopen("/dev/null", "w"); ctx.hashfile.clear(); run_context(ctx, c, true);
     bool bad = ctx.classes.count("violations") && ctx.classes["violations"] > 0; printf("%s behind a context line: %s\n", text(c.it).c_str(), bad ? "FAIL" : "OK"); return bad ? 1 : 0;
+  }
+  if (caseid.compare(0, 3, "KR|") == 0) {
+    size_t bar = caseid.find('|', 3); if (bar == std::string::npos) return 2; size_t k = strtoul(caseid.c_str() + 3, nullptr, 10); LineCase c; if (!parse_case(caseid.substr(bar + 1), c)) return 2;
+    auto plain = al::assemble(text(c.it), c.combo); std::string t = text_kwreg(c.it, k); auto r = al::assemble(t, c.combo);
+    printf("%s -> rc %d %s\n%s -> rc %d %s\n", text(c.it).c_str(), plain.rc, x86::hex(plain.bytes.data(), plain.bytes.size()).c_str(), t.c_str(), r.rc, x86::hex(r.bytes.data(), r.bytes.size()).c_str());
+    bool bad = plain.rc == 0 && r.rc == 0 && r.bytes != plain.bytes; printf(bad ? "FAIL\n" : "OK\n"); return bad ? 1 : 0;
   }
   if (caseid.compare(0, 2, "F|") == 0) {
     LineCase c; if (!parse_case(caseid.substr(2), c)) return 2; hz::Ctx ctx; ctx.out = fopen("/dev/null", "w"); long before = 0; (void)before;
